@@ -31,7 +31,7 @@ type FetchScenario struct {
 }
 
 // RunFetcherScenario executes one script on a fresh Fetcher in real time and records the trace.
-// Returns the largest overshoot of the scenario's own 2 ms sleeps (the noise of the host).
+// Returns the largest overshoot of the scenario's own 2 ms sleeps / goroutine ping-pongs (the noise of the host).
 func RunFetcherScenario(sc *FetchScenario, scen int, log *scenLog, stats map[string]int) time.Duration {
 	var mu sync.Mutex // guards the environment's answers and orders the trace lines
 	t0 := time.Now()
@@ -48,9 +48,17 @@ func RunFetcherScenario(sc *FetchScenario, scen int, log *scenLog, stats map[str
 	var maxOver int64
 	stopMon := make(chan struct{})
 	var monWg sync.WaitGroup
-	monWg.Add(1)
+	ping, pong := make(chan struct{}), make(chan struct{})
+	monWg.Add(2)
 	go func() {
 		defer monWg.Done()
+		for range ping {
+			pong <- struct{}{}
+		}
+	}()
+	go func() {
+		defer monWg.Done()
+		defer close(ping)
 		for {
 			select {
 			case <-stopMon:
@@ -62,6 +70,13 @@ func RunFetcherScenario(sc *FetchScenario, scen int, log *scenLog, stats map[str
 			over := int64(time.Since(a) - 2*time.Millisecond)
 			if over > atomic.LoadInt64(&maxOver) {
 				atomic.StoreInt64(&maxOver, over)
+			}
+			// goroutine wake-up latency (what the fetcher's loop -> worker hand-over depends on)
+			a = time.Now()
+			ping <- struct{}{}
+			<-pong
+			if rtt := int64(time.Since(a)); rtt > atomic.LoadInt64(&maxOver) {
+				atomic.StoreInt64(&maxOver, rtt)
 			}
 		}
 	}()
